@@ -126,6 +126,10 @@ var c19Corpus = func() [][]byte {
 		[]byte(`{"nested":{"perm_channels":[` + ch("transfer", "channel-0") + `]}}`),
 		[]byte(`null`),
 		[]byte(`42`),
+		[]byte(`{"perm\u005fchannels":[` + ch("transfer", "channel-1") + `]}`),                          // the key spelled with a JSON escape: still the key perm_channels
+		[]byte(`{"perm_channels":[{"port\u005fid":"transfer","channel_id":"channel-3"}]}`),               // escaped inner key
+		[]byte(`{"perm_channels":[{"port_id":"tr\u0061nsfer","channel_id":"ch\u0061nnel-4"}]}`),          // escaped values: transfer / channel-4
+		[]byte("{ \"perm_channels\" :\n\t[ " + ch("transfer", "channel-0") + " ] }"),                     // generous white space
 	}
 }()
 
